@@ -95,10 +95,6 @@ func (rc *CRespCodec) Decode(c CConn) (*Msg, error) {
 	resp.Body = make(map[int32]*Frag, sizeHint(n, buf))
 	resp.Fd2Slot = make(map[int]int32, sizeHint(n, buf))
 
-	if rc.sizeTooLarge(buf.TotalSize()) {
-		resp.Type = codec.ReqTooLarge
-	}
-
 	switch resp.Type {
 	case codec.ReqMget:
 		if err = rc.Frag1(c, n, resp, buf); err != nil {
@@ -128,6 +124,10 @@ func (rc *CRespCodec) Decode(c CConn) (*Msg, error) {
 		}
 	}
 	GlobalStats.TotalRequests.WithLabelValues().Inc()
+	// the limit applies to the request's own encoded size, not to whatever else is buffered behind it
+	if rc.sizeTooLarge(buf.ReadSize()) {
+		resp.Type = codec.ReqTooLarge
+	}
 	_, _ = c.Discard(buf.ReadSize())
 	return resp, nil
 }
